@@ -135,6 +135,20 @@ fn judge_at(c: &Case, h: &[u8], stream: &Vec<u8>, st: &mut Stats) -> Verdict {
     st.sample(if is_v1 { "v1-header" } else { "v2-header" }, || format!("{} ({} bytes) split_seed={}", esc(&h[..h.len().min(110)]), h.len(), c.split_seed));
     let sh = |i: &[u8]| if is_v1 { shape(i) } else { shape2(i) };
 
+    // one case in four: the receiver has just accepted twenty headers of the OTHER version (a listener that serves both;
+    // what was accepted before must not change how this header's prefixes are classified)
+    if st.evals % 4 == 0 {
+        let other: Vec<u8> = if is_v1 {
+            let mut v = crate::oracle::v2::SIG.to_vec();
+            v.extend_from_slice(&[0x21, 0x11, 0, 12, 10, 0, 0, 1, 10, 0, 0, 2, 0, 80, 1, 187]);
+            v
+        } else {
+            b"PROXY TCP4 127.0.0.1 192.168.1.1 80 443\r\n".to_vec()
+        };
+        for _ in 0..20 {
+            let _ = imp::auto(&other);
+        }
+    }
     // ---- every proper prefix
     for k in 0..h.len() {
         let p = &h[..k];
